@@ -6,6 +6,10 @@ Import ListNotations.
 Open Scope Z_scope.
 Ltac Zify.zify_post_hook ::= Z.div_mod_to_equations.
 
+Section Gen.
+Context {RF : RecFun}.
+
+
 Definition gv (k : nat) : Z := match k with O => 0 | S j => 2 * (Z.of_nat j mod 32767) + 2 end.
 
 Lemma gv_range k : 0 <= gv k < 65536.
@@ -154,3 +158,5 @@ Proof.
   assert (E : Z.of_nat j1 mod 32767 = Z.of_nat j2 mod 32767) by lia. clear H.
   assert (R : Z.of_nat j1 <= Z.of_nat j2) by lia. lia.
 Qed.
+
+End Gen.
